@@ -265,6 +265,26 @@ Theorem C06_parse_globals_bytes_no_escape : forall fuel (input : bstr), no_escap
 Proof. exact parse_globals_bytes_no_escape. Qed.
 Print Assumptions C06_parse_globals_bytes_no_escape.
 
+(* budgets: EvalExpr runs without a registry, so no callee is ever entered and the height of the tree is
+   enough fuel for ANY tree; with it the three entry points answer -- a value, an error value, or a value
+   outside the float model -- on every tree / every byte string *)
+Theorem C06_eval_expr_total :
+  forall fuel n, (tree_height n <= fuel)%nat ->
+    match eval_expr_impl true fuel n with Ok _ | Err _ | OutOfModel => True | _ => False end.
+Proof. exact eval_expr_impl_total. Qed.
+Print Assumptions C06_eval_expr_total.
+
+Theorem C06_eval_expr_text_total :
+  forall s : bstr, match eval_expr_text s with Ok _ | Err _ | OutOfModel => True | _ => False end.
+Proof. exact eval_expr_text_total. Qed.
+Print Assumptions C06_eval_expr_text_total.
+
+Theorem C06_parse_globals_bytes_total :
+  forall fuel (input : bstr), (globals_fuel input <= fuel)%nat ->
+    match parse_globals_bytes fuel input with Ok _ | Err _ | OutOfModel => True | _ => False end.
+Proof. exact parse_globals_bytes_total. Qed.
+Print Assumptions C06_parse_globals_bytes_total.
+
 (* what Bundle.Compile's loop over Registry.Add builds is well-formed, given that the parser numbers
    the nodes of each template inside the file's text *)
 Theorem C06_compiled_reg_ok :
